@@ -186,7 +186,12 @@ def main():
             for v in viol[:3]:
                 print('      ' + v[:300])
         for name, prop, patch in seeded:
-            subprocess.run(['git', '-C', REPO, 'apply', patch], check=True)
+            if subprocess.run(['git', '-C', REPO, 'apply', patch], capture_output=True).returncode != 0 and \
+               subprocess.run(['git', '-C', REPO, 'apply', '-C1', '--recount', patch], capture_output=True).returncode != 0:
+                # written against an earlier HEAD: a later fix: commit touches the same lines (its verdict at the time is in seeded/results)
+                print('%-40s %s patch does not apply on this HEAD (later fixes touch the same lines)' % ('seeded/' + name, prop), flush=True)
+                restore()
+                continue
             rc, viol, dt, out = run_check(prop)
             restore()
             print('%-40s %s exit=%d %.0fs %s' % ('seeded/' + name, prop, rc, dt, 'CAUGHT' if rc == 1 else 'MISSED' if rc == 0 else 'HARNESS-ERROR'), flush=True)
